@@ -87,14 +87,15 @@ Definition cmp_sound (m : option cmp_method) : Prop := m = Some CmpGT \/ m = Som
 
 Definition cfg_ok (c : cfg) : Prop :=
   cap c <= CAP25 /\ dec_on c = true /\ cmp_sound (dec_create c) /\ cmp_sound (dec_edit c) /\
-  dec_exec c = true /\ dec_rec c = true /\ wasm_check c = true /\ evm_only_eth c = true.
+  dec_exec c = true /\ dec_rec c = true /\ wasm_check c = true /\ evm_only_eth c = true /\
+  cont_exec c = true /\ cont_staking c = true /\ cont_other c = true.
 
 Definition cmp_soundb (m : option cmp_method) : bool :=
   match m with Some CmpGT | Some CmpGTE => true | _ => false end.
 
 Definition cfg_okb (c : cfg) : bool :=
   (cap c <=? CAP25) && dec_on c && cmp_soundb (dec_create c) && cmp_soundb (dec_edit c) &&
-  dec_exec c && dec_rec c && wasm_check c && evm_only_eth c.
+  dec_exec c && dec_rec c && wasm_check c && evm_only_eth c && cont_exec c && cont_staking c && cont_other c.
 
 Lemma cmp_soundb_sound m : cmp_soundb m = true -> cmp_sound m.
 Proof. destruct m as [[]|]; simpl; intro H; try discriminate; [now left|now right]. Qed.
@@ -112,7 +113,7 @@ Definition ica_safe (w : world) : Prop :=
 
 (** proposals that governance passed would have passed the commission check *)
 Definition gov_trusted (c : cfg) (h : list event) : Prop :=
-  forall dt ms, In (EvGovPass dt ms) h -> existsb (dec_rejects c 0) ms = false.
+  forall dt ms, In (EvGovPass dt ms) h -> dec_rejects_list c ms = false.
 
 Lemma over_sound m bound r : m = CmpGT \/ m = CmpGTE -> over m bound r = false -> r <= bound.
 Proof. intros [->| ->]; simpl; lia. Qed.
@@ -124,12 +125,33 @@ Proof.
   - destruct He as [E|E]; rewrite E in H; apply over_sound in H; auto; lia.
 Qed.
 
-(** a recursive check does not depend on how many MsgExec levels were already entered *)
-Lemma dec_rejects_lvl c : dec_rec c = true -> forall t n, dec_rejects c n t = dec_rejects c 0 t.
+(** when no clause returns early the scan is an [existsb] *)
+Definition scans_all (c : cfg) : Prop := cont_exec c = true /\ cont_staking c = true /\ cont_other c = true.
+
+Lemma stops_false c lvl x : scans_all c -> stops c lvl x = false.
 Proof.
-  intros Hrec t. induction t as [l|g cs IH|s0 ct cs IH|p cs IH|r a cs IH] using (tree_ind' leaf); intro n; try reflexivity.
-  cbn [dec_rejects]. rewrite Hrec. rewrite !orb_true_l.
+  intros (H1 & H2 & H3). unfold stops. rewrite H1, H2, H3.
+  destruct x as [[]| | | |]; simpl; try reflexivity.
+  - destruct (dec_create c); reflexivity.
+  - destruct (dec_edit c); reflexivity.
+  - destruct (looks_into c lvl); reflexivity.
+Qed.
+
+Lemma scan_existsb c lvl f ms : scans_all c -> scan f (stops c lvl) ms = existsb f ms.
+Proof.
+  intro H. induction ms as [|x r IH]; simpl; [reflexivity|]. rewrite (stops_false c lvl x H), IH. reflexivity.
+Qed.
+
+Lemma cfg_ok_scans_all c : cfg_ok c -> scans_all c.
+Proof. intros (_ & _ & _ & _ & _ & _ & _ & _ & H). exact H. Qed.
+
+(** a recursive check does not depend on how many MsgExec levels were already entered *)
+Lemma dec_rejects_lvl c : dec_rec c = true -> scans_all c -> forall t n, dec_rejects c n t = dec_rejects c 0 t.
+Proof.
+  intros Hrec Hall t. induction t as [l|g cs IH|s0 ct cs IH|p cs IH|r a cs IH] using (tree_ind' leaf); intro n; try reflexivity.
+  cbn [dec_rejects]. unfold looks_into. rewrite Hrec. rewrite !orb_true_l.
   destruct (dec_exec c); simpl; [|reflexivity].
+  rewrite !(scan_existsb c _ _ _ Hall).
   apply existsb_ext_in. intros x Hx. rewrite Forall_forall in IH.
   rewrite (IH x Hx (S n)). rewrite (IH x Hx 1%nat). reflexivity.
 Qed.
@@ -173,14 +195,16 @@ Lemma run_msg_inv c w s0 :
 Proof.
   intros Hc Hi t.
   pose proof Hc as (_ & _ & _ & _ & Hexec & Hrec & Hwasm & _).
+  pose proof (cfg_ok_scans_all c Hc) as Hall.
   induction t as [l|g cs IH|snd ct cs IH|p cs IH|r a cs IH] using (tree_ind' leaf); intros s s' Hd Hs Hrun.
   - rewrite run_msg_leaf in Hrun. cbn [dec_rejects] in Hd.
     eapply leaf_run_capped; eauto using leaf_over_capped.
-  - rewrite run_msg_exec in Hrun. cbn [dec_rejects] in Hd. rewrite Hexec, Hrec in Hd. simpl in Hd.
+  - rewrite run_msg_exec in Hrun. cbn [dec_rejects] in Hd. unfold looks_into in Hd. rewrite Hexec, Hrec in Hd. simpl in Hd.
+    rewrite (scan_existsb c _ _ _ Hall) in Hd.
     rewrite Forall_forall in IH.
     eapply seq_opt_inv_weak; [|exact Hs|exact Hrun].
     intros c0 Hin s1 s2 Hs1 _ Hr. eapply IH; eauto.
-    rewrite <- (dec_rejects_lvl c Hrec c0 1%nat). eapply existsb_false_forall; eauto.
+    rewrite <- (dec_rejects_lvl c Hrec Hall c0 1%nat). eapply existsb_false_forall; eauto.
   - rewrite run_msg_wasm in Hrun.
     destruct (w_reflects w ct snd && negb (Nat.eqb (List.length cs) 0)); [|discriminate].
     rewrite Forall_forall in IH.
@@ -204,21 +228,22 @@ Proof.
 Qed.
 
 Lemma run_msgs_inv c w s0 ms :
-  cfg_ok c -> ica_safe w -> existsb (dec_rejects c 0) ms = false ->
+  cfg_ok c -> ica_safe w -> dec_rejects_list c ms = false ->
   forall s s', changed_capped s0 s -> run_msgs c w ms s = Some s' -> changed_capped s0 s'.
 Proof.
   intros Hc Hi Hd s s' Hs Hrun. unfold run_msgs in Hrun.
+  unfold dec_rejects_list in Hd. rewrite (scan_existsb c _ _ _ (cfg_ok_scans_all c Hc)) in Hd.
   eapply seq_opt_inv_weak; [|exact Hs|exact Hrun].
   intros m Hin s1 s2 Hs1 _ Hr. eapply run_msg_inv; eauto. eapply existsb_false_forall; eauto.
 Qed.
 
 (** ---------------------------------------------------------------- transactions and histories *)
-Lemma ante_ok_checked c x : cfg_ok c -> ante_ok c x = true -> existsb (dec_rejects c 0) (t_msgs x) = false.
+Lemma ante_ok_checked c x : cfg_ok c -> ante_ok c x = true -> dec_rejects_list c (t_msgs x) = false.
 Proof.
-  intros (_ & Hon & _ & _ & _ & _ & _ & Heth) H. unfold ante_ok in H.
+  intros (_ & Hon & _ & _ & _ & _ & _ & Heth & _) H. unfold ante_ok in H.
   destruct (route_tx c (t_ext x)); try discriminate.
   - rewrite Hon in H. apply andb_true_iff in H as [_ H]. simpl in H.
-    destruct (existsb (dec_rejects c 0) (t_msgs x)); [discriminate|reflexivity].
+    destruct (dec_rejects_list c (t_msgs x)); [discriminate|reflexivity].
   - rewrite Heth in H. discriminate.
 Qed.
 
@@ -234,7 +259,7 @@ Qed.
 
 Lemma step_changed c w s0 s e :
   cfg_ok c -> ica_safe w ->
-  (forall dt ms, e = EvGovPass dt ms -> existsb (dec_rejects c 0) ms = false) ->
+  (forall dt ms, e = EvGovPass dt ms -> dec_rejects_list c ms = false) ->
   changed_capped s0 s -> changed_capped s0 (step c w s e).
 Proof.
   intros Hc Hi Hg Hs. destruct e as [x|dt ms]; simpl.
@@ -314,12 +339,26 @@ Qed.
 Definition cfg_one_level : cfg :=
   {| cap := CAP25; nonevm_known := true; evm_route := RouteEVM; other_route := RouteReject; evm_only_eth := true;
      vb_on := true; sig_on := true; dec_on := true; dec_create := Some CmpGT; dec_edit := Some CmpGT;
-     dec_exec := true; dec_rec := false; wasm_check := true |}.
+     dec_exec := true; dec_rec := false; cont_exec := true; cont_staking := true; cont_other := true; wasm_check := true |}.
 
 Lemma refuted_one_level :
   exists h, only_txs h /\ breaks_cap (run_history cfg_one_level world_plain (st0 0) h).
 Proof.
   exists [mk 1 [Exec 1 [Exec 1 [Leaf (CreateVal 1 r90 ONE ONE)]]]]. split; [exact I|].
+  exists 1%nat. eexists. split; [vm_compute; reflexivity|vm_compute; reflexivity].
+Qed.
+
+(** the MsgExec clause returning the nested result directly (`return checkCommission(inner)`): every message
+    AFTER a MsgExec in the same list escapes the check *)
+Definition cfg_exec_early_return : cfg :=
+  {| cap := CAP25; nonevm_known := true; evm_route := RouteEVM; other_route := RouteReject; evm_only_eth := true;
+     vb_on := true; sig_on := true; dec_on := true; dec_create := Some CmpGT; dec_edit := Some CmpGT;
+     dec_exec := true; dec_rec := true; cont_exec := false; cont_staking := true; cont_other := true; wasm_check := true |}.
+
+Lemma refuted_exec_early_return :
+  exists h, only_txs h /\ breaks_cap (run_history cfg_exec_early_return world_plain (st0 0) h).
+Proof.
+  exists [mk 1 [Exec 1 [Leaf (Send 1)]; Leaf (CreateVal 1 r90 ONE ONE)]]. split; [exact I|].
   exists 1%nat. eexists. split; [vm_compute; reflexivity|vm_compute; reflexivity].
 Qed.
 
